@@ -9,6 +9,11 @@ NA = {
 PENDING = "not claimed yet: contracts for this property are still being written (DESIGN.md build order)"
 
 CLAIMED = {
+ "C16": dict(
+   text="Deductive where a contract can state it: every function on a static call cycle of the generator packages (41 today) carries a `decreases` measure whose VC is discharged at every recursive call (nesting depth of descriptors, or the number of full names not yet in a visited/on-stack set, with the set-growth invariants proved through the loops); a structural rule refuses any recursive function without a measure and any loop that is not a range over a finite collection or a simple counting loop; a zero-annotation bounds sweep proves every index, slice, type-assertion and explicit-panic site of all 550 functions of the generator packages and the five plugin mains unreachable-or-in-range for all arguments. Two genuine defects found this way were repaired with fix: commits (unbounded mock recursion on self-containing response types, panic-on-error in the OpenAPI main). Crash-freedom of whole plugin runs is additionally sampled by a bounded family (descriptor shapes x plugins x parameters, thorough tier) that also serves as the replayer.",
+   design="4 (C16)",
+   note="Trusted: termination and panic-freedom of protogen/protobuf-go/libopenapi/yaml/fmt; the finite universe of full names (measure axioms in spec/trusted/descriptors.spec); protogen hands out non-nil descriptors (nil dereferences are outside the sweep). Static call graph only. 'Bounded time' is established as termination, not as a time bound; memory only through the family's cap (bounded).",
+   technique="contract-based deductive verification: termination measures (decreases) with loop invariants, zero-annotation bounds/no-panic VCs for every generator function, structural recursion/loop inventory; bounded plugin-run family as replayer"),
  "C09": dict(
    text="Deductive, on the extracted constant templates: validateHeaders is proved (map-building loops and a map-range loop verified for arbitrary iteration order) to reject exactly when some effective required declaration is unsatisfied, with one violation list; the type/format validators are pinned per type and format; the request pipeline checks headers first and reads no body before they passed; lemmas state acceptance/rejection and the 'method declaration replaces service declaration' rule, whose optional-override class is a known finding replayed with httptest; CombineHeaders (what OpenAPI publishes) is verified separately.",
    design="4 (C09)",
